@@ -1,6 +1,7 @@
 import PlzVerif.Lemmas.Build
 import PlzVerif.Lemmas.BuildNoop
 import PlzVerif.Model.BuildFacts
+import PlzVerif.Model.BuildE2E
 /-!
 C01  Incremental builds produce exactly what a clean build produces.
 
@@ -32,8 +33,8 @@ theorem C01_incremental_eq_clean (hR : Function.Injective ruleSer) (hP : Functio
     (r : Repo K A F N C) (sel : K → Bool) (out : Out K C S N H)
     (hinv : Inv exec ruleSer pathSer out) (hwf : WFList sel [] r.targets) :
     ∀ k ∈ selKeys sel r.targets, ∃ c st,
-      (build generatedFacts exec ruleSer pathSer r sel out).1 k = some (c, st) ∧ (clean exec r sel).lookup k = some c := by
-  have h := buildList_spec generatedFacts exec ruleSer pathSer facts_cmp hR hP r sel r.targets [] out [] rfl hinv
+      (build generatedFacts (mvCoded generatedFacts pathSer) exec ruleSer pathSer r sel out).1 k = some (c, st) ∧ (clean exec r sel).lookup k = some c := by
+  have h := buildList_spec generatedFacts (mvCoded generatedFacts pathSer) exec ruleSer pathSer (mvCoded_ok _ _) facts_cmp hR hP r sel r.targets [] out [] rfl hinv
     (by intro k hk; simp at hk) hwf
   intro k hk
   exact h.2.2 k (by simpa using hk)
@@ -43,10 +44,10 @@ theorem C01_incremental_eq_clean (hR : Function.Injective ruleSer) (hP : Functio
 theorem C01_main (hR : Function.Injective ruleSer) (hP : Function.Injective pathSer)
     (history : List (HOp K A F N C)) (r : Repo K A F N C) (sel : K → Bool) (hwf : WFList sel [] r.targets) :
     ∀ k ∈ selKeys sel r.targets, ∃ c st,
-      (build generatedFacts exec ruleSer pathSer r sel (runHist generatedFacts exec ruleSer pathSer history (fun _ => none))).1 k = some (c, st) ∧
+      (build generatedFacts (mvCoded generatedFacts pathSer) exec ruleSer pathSer r sel (runHist generatedFacts (mvCoded generatedFacts pathSer) exec ruleSer pathSer history (fun _ => none))).1 k = some (c, st) ∧
       (clean exec r sel).lookup k = some c :=
   C01_incremental_eq_clean exec ruleSer pathSer hR hP r sel _
-    (runHist_inv generatedFacts exec ruleSer pathSer hP history _ (inv_empty exec ruleSer pathSer)) hwf
+    (runHist_inv generatedFacts (mvCoded generatedFacts pathSer) exec ruleSer pathSer (mvCoded_ok _ _) hP history _ (inv_empty exec ruleSer pathSer)) hwf
 
 /-- A target skipped as up to date has the output its current definition would produce (the induction step). -/
 theorem C01_skip_sound (hR : Function.Injective ruleSer) (hP : Function.Injective pathSer)
@@ -71,8 +72,8 @@ def tgt : Target Nat Nat Nat := ⟨0, 0, [0], []⟩
 def repo1 : Repo Nat Nat Nat Nat Dir := { files := fun _ => [(1, 0), (2, 0)], fname := id, outName := id, targets := [tgt] }
 def repo2 : Repo Nat Nat Nat Nat Dir := { files := fun _ => [(1, 0), (9, 0)], fname := id, outName := id, targets := [tgt] }
 def all : Nat → Bool := fun _ => true
-def out1 : Out Nat Dir Nat Nat (List Nat) := (build generatedFacts execW id pserBad repo1 all (fun _ => none)).1
-def out2 : Out Nat Dir Nat Nat (List Nat) := (build generatedFacts execW id pserBad repo2 all out1).1
+def out1 : Out Nat Dir Nat Nat (List Nat) := (build generatedFacts (mvCoded generatedFacts pserBad) execW id pserBad repo1 all (fun _ => none)).1
+def out2 : Out Nat Dir Nat Nat (List Nat) := (build generatedFacts (mvCoded generatedFacts pserBad) execW id pserBad repo2 all out1).1
 end Witness
 
 open Witness in
@@ -88,6 +89,19 @@ theorem C01_witness_pathSer_not_injective : ¬ Function.Injective pserBad := by
   intro h
   have := @h [(1, 7), (2, 7)] [(1, 7), (9, 7)] (by decide)
   exact absurd this (by decide)
+
+/-- Second witness (optional outputs): the move of outputs as coded lets an optional output that is no longer
+    produced linger in plz-out, so it does not satisfy `MvOK` — the hypothesis under which the build lemmas hold.
+    Replayed on the real binary by corpus/C01/optional-out-disappears.ops (known finding). -/
+theorem C01_witness_optional_output_lingers : ¬ MvOK PlzVerif.BuildE2E.pathSer PlzVerif.BuildE2E.mvE2E := by
+  intro h
+  rcases h (.fileOpt "a" (some "a")) (.fileOpt "" none) with h1 | ⟨h1, _⟩
+  · simp [PlzVerif.BuildE2E.mvE2E, PlzVerif.BuildE2E.extraOf] at h1
+  · simp [PlzVerif.BuildE2E.pathSer] at h1
+
+/-- …while for everything that is not an optional output the coded move is `mvCoded`, which is fine. -/
+theorem C01_mvE2E_declared (old : PlzVerif.BuildE2E.Tree) (c : String) :
+    PlzVerif.BuildE2E.mvE2E old (.file c) = mvCoded generatedFacts PlzVerif.BuildE2E.pathSer old (.file c) := rfl
 
 -- non-vacuity of C01_main's hypotheses: a well-formed two-target list with injective pre-images
 example : WFList (fun _ => true) [] ([⟨0, 0, [0], []⟩, ⟨1, 1, [], [0]⟩] : List (Target Nat Nat Nat)) := by
